@@ -47,6 +47,8 @@ type C10Cell struct {
 	PriorA  Prior   `json:"prior_a"`
 	PriorB  Prior   `json:"prior_b"`
 	Imports []IFile `json:"imports"`
+	// FailWrite (if > 0): the n-th write of a record to the store fails during the (first) import.
+	FailWrite int `json:"fail_write,omitempty"`
 }
 
 func (f IFile) render(pubs []string) []byte {
@@ -278,7 +280,11 @@ func c10Run(cell C10Cell) (c10Result, error) {
 		if err := os.WriteFile(file, f.render(pubs), 0o600); err != nil {
 			return res, err
 		}
-		code, so, se, err := rig.CLI(w.Rig.Dir, "--import-slashing-protection", "--genesis-validators-root", rig.GVR, "--slashing-protection-file", file)
+		var env []string
+		if cell.FailWrite > 0 && fi == 0 {
+			env = []string{fmt.Sprintf("VERIF_HOOK_FAIL=store.store#%d", cell.FailWrite)}
+		}
+		code, so, se, err := rig.CLIWithEnv(env, w.Rig.Dir, "--import-slashing-protection", "--genesis-validators-root", rig.GVR, "--slashing-protection-file", file)
 		if err != nil {
 			return res, err
 		}
@@ -389,6 +395,28 @@ func C10(tier string) int {
 			}
 		}
 	}
+	// A write of a record fails during the import (each of the first writes in turn): either the import reports failure,
+	// or everything in the file is protected afterwards; nothing is lowered in either case.
+	failing := 0
+	for _, f := range files {
+		two := false
+		for _, e := range f.Entries {
+			if len(e.Blocks) > 0 && len(e.Atts) > 0 {
+				two = true
+			}
+		}
+		if !two || f.Meta != "ok" || strings.HasPrefix(f.Name, "bad:") {
+			continue
+		}
+		for n := 1; n <= 4; n++ {
+			for pi, p := range priors {
+				if pi == 0 || (tier == "thorough" && pi%3 == 0) {
+					cells = append(cells, C10Cell{PriorA: p, PriorB: priorB, Imports: []IFile{f}, FailWrite: n})
+					failing++
+				}
+			}
+		}
+	}
 	budget := 150 * time.Second
 	if tier == "thorough" {
 		budget = 40 * time.Minute
@@ -440,12 +468,13 @@ func C10(tier string) int {
 		return run.Finish()
 	}
 	run.Coverage = map[string]any{
+		"cells_with_a_failing_write":    failing,
 		"states":                        len(priors) * 1,
 		"transitions":                   done,
 		"traces_validated_against_impl": done,
 		"evaluations":                   done,
 		"distinct_nontrivial":           len(cells),
-		"rule":                          "each cell = prior per-key history made by real signing x one or two interchange files (incl. files whose values are the lowest legal ones: slot 0, attestation 0->0, source 0) imported by the real `dirk --import-slashing-protection` binary built from the tree; afterwards the store is reopened and probed: every proposal at or below the highest own/file slot and every attestation at or below the highest own/file target or below the highest own/file source must be refused; no decoded record may decrease; wrong metadata must give a non-zero exit and unchanged records",
+		"rule":                          "each cell = prior per-key history made by real signing x one or two interchange files (for files with blocks and attestations for a key also with the n-th record write failing, n = 1..4, injected through the hook of the real binary; incl. files whose values are the lowest legal ones: slot 0, attestation 0->0, source 0) imported by the real `dirk --import-slashing-protection` binary built from the tree; afterwards the store is reopened and probed: every proposal at or below the highest own/file slot and every attestation at or below the highest own/file target or below the highest own/file source must be refused; no decoded record may decrease; wrong metadata must give a non-zero exit and unchanged records",
 		"samples":                       samples.List(),
 		"exhaustive":                    !capped,
 		"prior_states":                  len(priors),
